@@ -122,6 +122,22 @@ impl Scn {
         run.w.deliver(0, ifi, src, build(&response(recs)));
     }
 
+    /// Context tag: was the instance's PTR first seen as a goodbye (TTL 0) less than a second
+    /// before a copy with a real TTL arrived?
+    fn ptr_tag(store: &Store, inst: &Name) -> &'static str {
+        let ptrs: Vec<&Delivered> = store.v.iter().filter(|d| d.rec.rtype == T_PTR && matches!(&d.rec.rd, RD::Ptr(t) if t == inst)).collect();
+        for (k, d) in ptrs.iter().enumerate() {
+            if d.rec.ttl > 1 {
+                if let Some(prev) = k.checked_sub(1).map(|p| ptrs[p]) {
+                    if prev.rec.ttl <= 1 && d.t < prev.t + 1000 {
+                        return "ptr-revived-within-1s-of-a-goodbye";
+                    }
+                }
+            }
+        }
+        "plain"
+    }
+
     /// C03: one ServiceResolved event against the reference store.
     fn check_resolved(&self, run: &mut Run, t: u64, r: &Resolved) {
         run.counters.push(("resolved_events_checked", 1));
@@ -254,7 +270,8 @@ impl Scn {
                             }
                         }
                         if self.prop == Prop::C04 && !st.found {
-                            run.viols.push(viol("C04|ServiceResolved-before-ServiceFound", r.fullname.clone()));
+                            let tag = Self::ptr_tag(&run.store, &k);
+                            run.viols.push(viol(format!("C04|ServiceResolved-before-ServiceFound|{tag}"), r.fullname.clone()));
                         }
                         st.reported = true;
                         st.removed_at = None;
@@ -322,8 +339,9 @@ impl Scn {
                 let resolved_now = evs.iter().any(|(_, _, e)| matches!(e, BEv::Resolved(r) if r.fullname == full));
                 if !st.found || !resolved_now {
                     let what = if !st.found { "ServiceFound" } else { "ServiceResolved" };
+                    let tag = Self::ptr_tag(&run.store, &inst);
                     run.viols.push(viol(
-                        format!("C04|complete-instance-not-reported|no-{what}"),
+                        format!("C04|complete-instance-not-reported|no-{what}|{tag}"),
                         format!("{} complete after {label} at +{} (new: {:?}); events this step {:?}; delivered {:?}", full, now - T0, newly.iter().map(|r| r.summary()).collect::<Vec<_>>(), evs.iter().map(|e| format!("{:?}", e.2)).collect::<Vec<_>>(), run.store.v.iter().map(|d| (d.t - T0, d.ifi, d.rec.summary())).collect::<Vec<_>>()),
                     ));
                 }
